@@ -225,6 +225,18 @@ def stream_size(stream):
         raise StreamError("stream. seek() tell() failed", path="???")
 
 
+def stream_checkskipped(stream, offset, path):
+    # lazy constructs skip fields by seeking, which succeeds beyond the end of a stream: fail like the read would have
+    try:
+        fallback = stream.tell()
+        end = stream.seek(0, 2)
+        stream.seek(fallback)
+    except Exception:
+        raise StreamError("stream.seek() or tell() failed", path=path)
+    if offset > end:
+        raise StreamError("stream is shorter than the skipped fields, expected %d, found %d" % (offset, end), path=path)
+
+
 def stream_iseof(stream):
     try:
         fallback = stream.tell()
@@ -5937,6 +5949,7 @@ class Lazy(Subconstruct):
             stream_seek(stream, fallback, 0, path)
             return obj
         len = self.subcon._actualsize(stream, context, path)
+        stream_checkskipped(stream, offset + len, path)
         stream_seek(stream, offset + len, 0, path)
         return execute
 
@@ -6054,6 +6067,7 @@ class LazyStruct(Construct):
                     context[sc.name] = parseret
                 offset = stream_tell(stream, path)
             offsets[i+1] = offset
+        stream_checkskipped(stream, offset, path)
         return LazyContainer(self, stream, offsets, values, context, path)
 
     def _build(self, obj, stream, context, path):
@@ -6178,6 +6192,7 @@ class LazyArray(Subconstruct):
                 values[i] = parseret
                 offset = stream_tell(stream, path)
             offsets[i+1] = offset
+        stream_checkskipped(stream, offset, path)
         return LazyListContainer(sc, stream, count, offsets, values, context, path)
 
     def _build(self, obj, stream, context, path):
